@@ -7,7 +7,8 @@ import Driver.Util
 
 `pdshmodel dshbak model`: one case per line `MODE REPAIRED LIMIT HEXINPUT`
   MODE n (report / -d: one block per tag) or c (-c: coalesced), REPAIRED = bit 0: D21 patch applied,
-  bit 1: F19-EMPTYSTEM patch applied, LIMIT = 0 or the range limit of the F19-LONGRUN patch (all probed
+  bit 1: F19-EMPTYSTEM patch applied, LIMIT = L or L/R: L = 0 or the range limit of the F19-LONGRUN patch, R = 0 or the elements-per-
+  bracket limit of the F19-MANYRANGES patch (all probed
   on the real script by the check),
   HEXINPUT the bytes of stdin.  Answer: blocks separated by `;` (`.` when there is none)
   n:  HEX(tag)=HEX(line),HEX(line)...
@@ -30,23 +31,43 @@ def unhxs (s : String) : Option (List Str) :=
 
 def semis (l : List String) : String := if l.isEmpty then "." else ";".intercalate l
 
+/-- `LIMIT` or `LIMIT/MAXRANGES` (0 = the repair is absent) -/
+def parseLimits (s : String) : Option Nat × Option Nat :=
+  let opt (x : String) : Option Nat := match x.toNat? with | some 0 => none | some m => some m | none => none
+  match s.splitOn "/" with
+  | [a, b] => (opt a, opt b)
+  | [a] => (opt a, none)
+  | _ => (none, none)
+
 def runModel (line : String) : String :=
   match Driver.words line with
-  | [mode, rep, slim, hxin] =>
+  | [mode, rep, slimmr, hxin] =>
     match unhx hxin with
     | none => "bad-op"
     | some input =>
       let flags := rep.toNat?.getD 0
-      let lim : Option Nat := match slim.toNat? with | some 0 => none | some m => some m | none => none
+      let (lim, mr) := parseLimits slimmr
       let m := processLines (flags % 2 = 1) (readLines input)
       if mode = "n" then
         semis ((normalBlocks (keys m) m).map fun b => hx b.1 ++ "=" ++ hxs b.2)
       else if mode = "c" then
         semis ((coalesce (keys m) m).map fun b =>
-          let gs := compressV lim (flags / 2 % 2 = 1) b.1
+          let gs := compressV lim mr (flags / 2 % 2 = 1) b.1
           hxs (gs.map fun g => renderHeader [g]) ++ "=" ++ hxs b.1 ++ "=" ++ hxs b.2 ++ "=" ++ hxs (hostsOf gs))
       else "bad-op"
   | _ => "bad-op"
+
+/-- `h FLAGS LIMIT HEX(tag),...`: only `compress (sort (@tags))` — the header of one group (used for
+very large groups, where the association lists of `process_lines` make the full model slow) -/
+def runHeader (line : String) : Option String :=
+  match Driver.words line with
+  | ["h", rep, slimmr, tags] => do
+    let tags ← unhxs tags
+    let flags := rep.toNat?.getD 0
+    let (lim, mr) := parseLimits slimmr
+    let gs := compressV lim mr (flags / 2 % 2 = 1) (strSort tags)
+    pure (hxs (gs.map fun g => renderHeader [g]) ++ "=" ++ toString (hostsOf gs).length)
+  | _ => none
 
 def parseRecs (s : String) : Option (List (Str × Str)) :=
   if s = "~" then some [] else
@@ -79,7 +100,7 @@ def runSpec (line : String) : String :=
 def main (args : List String) : IO UInt32 := do
   let stdin ← IO.getStdin
   match args with
-  | ["model"] => Driver.forLines stdin () (fun _ l => ((), runModel l)); return 0
+  | ["model"] => Driver.forLines stdin () (fun _ l => ((), (runHeader l).getD (runModel l))); return 0
   | ["spec"] => Driver.forLines stdin () (fun _ l => ((), runSpec l)); return 0
   | _ => IO.eprintln "usage: pdshmodel dshbak model|spec"; return 2
 
